@@ -375,7 +375,7 @@ func (s *c14Seq) genTx() (*types.Transaction, string) {
 	}
 	wBig := 0
 	if s.sc%3 == 0 { // large payloads only in every third scenario (they are what a leaked replica retains)
-		wBig = 24
+		wBig = 6
 	}
 	switch s.r.Pick(56, 14, wCer, wBig) {
 	case 0: // plain transfer of a contended sender, any nonce / epoch relation
@@ -413,7 +413,7 @@ func (s *c14Seq) genTx() (*types.Transaction, string) {
 			n = c14Committed(st, from.Addr) + 1
 		}
 		to := s.senders[0].Addr
-		return c14Tx(w, from, types.SendTx, &to, s.amount(), s.r.Bytes(s.r.Range(60, 190)*1024), n, st.Epoch(), 12), "send/big"
+		return c14Tx(w, from, types.SendTx, &to, s.amount(), s.r.Bytes(s.r.Range(60, 160)*1024), n, st.Epoch(), 12), "send/big"
 	}
 }
 
